@@ -89,3 +89,12 @@ func Seed(seed int64) {}
 
 func ExpFloat64() float64  { return stdrand.ExpFloat64() }
 func NormFloat64() float64 { return stdrand.NormFloat64() }
+
+func Uint64() uint64 { return uint64(Int63())<<1 | uint64(Int63n(2)) }
+func NewZipf(r *Rand, s float64, v float64, imax uint64) *Zipf { return stdrand.NewZipf(r, s, v, imax) }
+func Read(p []byte) (n int, err error) {
+	for i := range p {
+		p[i] = byte(Int63n(256))
+	}
+	return len(p), nil
+}
